@@ -24,7 +24,9 @@ class LookupFsDev(fs.fsDev):
             if st is None or any(
                 f(st.st_mode) for f in (stat.S_ISREG, stat.S_ISDIR, stat.S_ISFIFO)
             ):
-                kwds["strict"] = True
+                # the node is gone (or was replaced by something else): all we
+                # know is the recorded path, which a non strict fsDev can hold.
+                kwds["strict"] = False
             else:
                 major, minor = fs.get_major_minor(st)
                 kwds["major"] = major
